@@ -121,6 +121,10 @@ type symExec struct {
 	K         *uint64      // assumed value of recv.cmdChain
 	depth     int
 	undecided string
+	// dispatcher mode: a local variable (not the receiver) whose field tagChain is assumed to equal K
+	tagRoot       types.Object
+	tagChain      string
+	assumeNoError bool
 }
 
 type symFrame struct {
@@ -202,7 +206,12 @@ func (x *symExec) exec(fr *symFrame, list []ast.Stmt) {
 								if i < len(vs.Values) {
 									fr.env[obj] = x.eval(fr, vs.Values[i])
 								} else {
-									fr.env[obj] = sym{kind: sConst, c: 0}
+									switch obj.Type().Underlying().(type) {
+									case *types.Interface, *types.Pointer, *types.Map, *types.Slice:
+										fr.env[obj] = sym{kind: sNil}
+									default:
+										fr.env[obj] = sym{kind: sConst, c: 0}
+									}
 								}
 							}
 						}
@@ -285,6 +294,21 @@ func (x *symExec) cond(fr *symFrame, e ast.Expr) (bool, bool) {
 			if a.kind == sConst && b.kind == sConst {
 				return (a.c == b.c) == (c.Op == token.EQL), true
 			}
+			// comparisons with nil
+			if a.kind == sNil || b.kind == sNil {
+				other, oe := b, c.Y
+				if b.kind == sNil {
+					other, oe = a, c.X
+				}
+				switch {
+				case other.kind == sNil:
+					return c.Op == token.EQL, true
+				case other.kind == sStruct && other.ptr:
+					return c.Op == token.NEQ, true
+				case x.assumeNoError && isErrorType(fr.info.TypeOf(oe)):
+					return c.Op == token.EQL, true // error-free execution is what the dispatch table describes
+				}
+			}
 		case token.LOR:
 			a, ok1 := x.cond(fr, c.X)
 			b, ok2 := x.cond(fr, c.Y)
@@ -337,6 +361,9 @@ func (x *symExec) eval(fr *symFrame, e ast.Expr) sym {
 		// field chain rooted at a tracked variable
 		root, chain, ok := rootedChain(fr.info, e)
 		if ok {
+			if x.tagRoot != nil && root == x.tagRoot && chain == x.tagChain && x.K != nil {
+				return sym{kind: sConst, c: *x.K}
+			}
 			var base sym
 			if root == x.recv {
 				base = sym{kind: sField, chain: ""}
@@ -382,6 +409,11 @@ func (x *symExec) eval(fr *symFrame, e ast.Expr) sym {
 	case *ast.CallExpr:
 		if tv, ok := fr.info.Types[e.Fun]; ok && tv.IsType() && len(e.Args) == 1 {
 			return x.eval(fr, e.Args[0])
+		}
+		if id, ok := e.Fun.(*ast.Ident); ok && id.Name == "new" && len(e.Args) == 1 {
+			if _, isB := fr.info.Uses[id].(*types.Builtin); isB {
+				return sym{kind: sStruct, typ: fr.info.TypeOf(e.Args[0]), fields: map[string]sym{}, ptr: true}
+			}
 		}
 		callee := calleeFunc(fr.info, e)
 		if callee == nil || !load.InModule(callee.Pkg()) || x.depth >= 3 {
